@@ -92,6 +92,8 @@ class Check:
             # descriptor open after all its objects were destroyed is a leak
             self.violation("descriptor-leak", w)
         self.counters["cases_with_descriptor_delta"] = len(_h.FD_LEAKS)
+        for w in _h.API_ISSUES[:20]:
+            self.violation("api-contract:" + w["what"], w)
         cov = {
             "evaluations": int(evaluations),
             "distinct_nontrivial": int(distinct_nontrivial),
